@@ -241,6 +241,14 @@ func maxLicenceEntries(v *hx.JV) int {
 	return max
 }
 
+// kf05Suspect is the byte-level, deliberately coarse form of the same exclusion for inputs that are not one strict
+// JSON value (the CycloneDX decoder reads the first value of the stream and ignores what follows, and member names are
+// matched without regard to case): more than kf05MaxLicences members named license / expression (the two forms of a CycloneDX licence entry) anywhere in the input.
+func kf05Suspect(data []byte) bool {
+	lower := bytes.ToLower(data)
+	return bytes.Count(lower, []byte(`"license"`))+bytes.Count(lower, []byte(`"expression"`)) > kf05MaxLicences
+}
+
 // kf05Witness: the length of the licence expression doubles with each licence entry.
 func kf05Witness() bool {
 	size := func(n int) int {
@@ -447,6 +455,10 @@ func c04BytesProperty(t *rapid.T) {
 	if json.Valid(data) {
 		hx.Class("valid_json")
 	}
+	if kf05Suspect(data) {
+		hx.Excluded("input_mentioning_more_than_12_licence_entries(KF-05)")
+		return
+	}
 	hx.NonTrivial(hx.Digest(string(data)))
 	if hx.WantSample() && len(data) < 300 && len(data) > 10 {
 		hx.Sample(func() any { return map[string]string{"kind": kind, "input": fmt.Sprintf("%q", data)} })
@@ -464,7 +476,8 @@ func c04BytesProperty(t *rapid.T) {
 	}
 }
 
-// c04Budget is the wall-clock allowance of one parse. Generated inputs stay below 300 KB, where the library needs
+// c04Budget is the wall-clock allowance of one parse. Generated inputs stay below 1 MB and below 1 600 components /
+// packages (the library's node grafting is quadratic: 4 000 empty components take seconds), where the library needs
 // milliseconds; a minute leaves room for a quadratic pass over such an input on a loaded machine, so that only growth
 // far beyond that (or a real hang) trips it. A stopwatch cannot tell polynomial from super-polynomial growth: this is
 // the "never hangs" clause, the growth clause is looked at by TestC04Scaling's doubling families.
